@@ -425,6 +425,65 @@ def run(prog, rep, tier):
         elif not any(b.dominates(cl.bb, j.bb) and cl.bb not in L for cl in clears):
             rep.violation(R64, PL + "|join|before-clear", "processing_loop: JoinHandle::join is not preceded by dropping all receivers; a worker blocked in send would never finish")
 
+    # (d) the coordinator waits without a time limit: a source may be silent for as long as its file takes to read
+    TIMED = ("select_timeout", "select_deadline", "try_select", "ready_timeout", "ready_deadline", "try_ready", "recv_timeout", "recv_deadline", "try_recv")
+    rmb = prog.body(PL + "::recv_many_chan")
+    timed = []
+    for bd in (b, rmb):
+        for c in bd.live_calls():
+            if c.d.startswith("crossbeam_channel::") and c.d.split("::")[-1] in TIMED:
+                timed.append((bd.path.split("::")[-1], c.d.split("::")[-1], c.line))
+    blocking = [c for c in rmb.live_calls() if c.d.startswith("crossbeam_channel::Select") and c.d.split("::")[-1] == "select"]
+    rep.examined(R64, PL + "|untimed-wait", sample={"blocking_select_calls": len(blocking), "timed_or_polling_calls": timed})
+    if timed or len(blocking) != 1:
+        rep.violation(R64, PL + "|untimed-wait", "the coordinator waits for the workers with %s; a source that is silent for longer than the limit (a large compressed file, a window far into the file) ends the run early with output missing" % (
+            [t[1] for t in timed] or "no blocking select"))
+    # ... and recv_many_chan reports "nothing to wait for" (None) only when no channel was registered or a lookup failed
+    import decide as _dec
+    none_bad = []
+    for p_ in _dec.enumerate_paths(rmb, 0, lambda bb: "ret" if rmb.term(bb)[0] == "ret" else None, opaque_ok=lambda bb: True, max_paths=20000):
+        if p_.end != "ret" or _dec.returned_variant(rmb, p_) != "None":
+            continue
+        okp = False
+        for d in p_.decisions:
+            if d[0] == "flag" and d[1][0] == "call" and d[1][1] == "is_empty" and d[2] is True:
+                okp = True
+            if d[0] in ("variant",) and d[1][0] == "call" and d[1][1] in ("get",) and d[2] == 0:
+                okp = True
+        if not okp:
+            none_bad.append(p_.blocks[-5:])
+    rep.examined(R64, PL + "::recv_many_chan|none", sample={"None_returns_not_explained_by_empty_registration_or_failed_lookup": len(none_bad)})
+    if none_bad:
+        rep.violation(R64, PL + "::recv_many_chan|none", "recv_many_chan can report 'no channel to wait for' although channels were registered (blocks %s); the caller then leaves the main loop with sources undrained" % (none_bad[0],))
+
+    # (e) lazily initialised tables shared by the workers are initialised atomically (get_or_init); a check-then-set
+    #     whose "already set" outcome is treated as a failure makes the result depend on which worker wins the race
+    cells = []
+    for p_ in sorted(reach):
+        bd = prog.body(p_, required=False)
+        if bd is None:
+            continue
+        for c in bd.live_calls():
+            st_ = c.callee.get("self") or ""
+            if ("OnceCell<" in st_ or "OnceLock<" in st_ or "once_cell::" in c.d or "OnceLock" in c.d):
+                cells.append((p_, c))
+    inits = [(p_, c) for p_, c in cells if c.d.split("::")[-1] in ("get_or_init", "get_or_try_init")]
+    sets = [(p_, c) for p_, c in cells if c.d.split("::")[-1] in ("set", "try_insert")]
+    rep.examined(R64, "workers|once-cells", sample={"atomic_inits": [p_.split("::")[-1] for p_, _ in inits], "check_then_set_sites": [p_.split("::")[-1] for p_, _ in sets]})
+    for p_, c in sets:
+        bd = prog.body(p_)
+        inspected = False
+        for bb in sorted(bd.live):
+            t = bd.term(bb)
+            if t[0] == "switch":
+                l = op_local(t[1])
+                for st in bd.stmts(bb):
+                    if st[0] == "=" and st[1] == [l] and st[2][0] == "discr" and st[2][1][0] == c.dest[0]:
+                        inspected = True
+        if inspected:
+            rep.violation(R64, "workers|once-cell-set|" + p_, "%s initialises a shared cell with %s and branches on its result (line %d): the worker that loses the initialisation race takes the failure path, so what is parsed depends on thread scheduling" % (
+                p_, c.d.split("::")[-1], c.line))
+
     # ------------------------------------------------------------ R6.5
     spawns = [c for c in b.live_calls() if c.d.endswith("Builder::spawn") or c.d.endswith("thread::spawn")]
     colors = [c for c in b.live_calls() if c.d.endswith("::color_rand")]
